@@ -44,6 +44,9 @@ abbrev URes := Except PErr (Nat × Bytes × Bytes)
   | .error e => .error e
   | .ok (n, w, rest) => .ok (n, stored dlen d bs ++ w, rest)
 
+/-- `cp = 0x10000 + ((cp - 0xd800) << 10) + (cp2 - 0xdc00)` -/
+def surrogate (cp cp2 : Nat) : Nat := 0x10000 + (cp - 0xd800) * 1024 + (cp2 - 0xdc00)
+
 /-- one call of `_jbl_unescape_json_string(ctx, q, p, d, dlen, &end)`; `d` is the running offset -/
 def unescPass (q dlen : Nat) : Bytes → Nat → URes
   | [], _ => .error .unquoted
@@ -68,10 +71,8 @@ def unescPass (q dlen : Nat) : Bytes → Nat → URes
                   | none => .error .codepoint
                   | some cp2 =>
                     if cp2 / 1024 ≠ 55 then .error .codepoint   -- (cp2 & 0xfc00) != 0xdc00
-                    else
-                      let u := 0x10000 + (cp - 0xd800) * 1024 + (cp2 - 0xdc00)
-                      if !codepointValid u then .error .codepoint
-                      else emit dlen d (encodeChar u) (unescPass q dlen r2)
+                    else if !codepointValid (surrogate cp cp2) then .error .codepoint
+                    else emit dlen d (encodeChar (surrogate cp cp2)) (unescPass q dlen r2)
                 | _ => .error .codepoint
               else if !codepointValid cp then .error .codepoint
               else emit dlen d (encodeChar cp) (unescPass q dlen r1)
